@@ -84,13 +84,7 @@ func checkC09(c *Ctx) {
 		}
 	}
 	c.Rule("R9.11", "locked syncers hold their mutex exclusively across the inner Write and Sync (Lock exists to make a sink that is not safe for concurrent use safe - two Syncs inside it at once are a race); the cell an AtomicLevel points at is never replaced once it exists (a plain pointer store racing with every reader)", 3)
-	for _, m := range []string{"Write", "Sync"} {
-		if fn := c.Method(CorePath, "lockedWriteSyncer", m); c.Anchor("R9.11", "zapcore.lockedWriteSyncer."+m, fn != nil) {
-			LockedAcross(c, "R9.11", fn, func(cl ssa.CallInstruction) bool {
-				return IsCallTo(cl, "(io.Writer).Write", "(go.uber.org/zap/zapcore.WriteSyncer).Sync", "(go.uber.org/zap/zapcore.WriteSyncer).Write")
-			}, "Mutex")
-		}
-	}
+	lockedSyncerMethods(c, "R9.11")
 	c5PointerStable(c, "R9.11")
 	c.Rule("R9.12", "no derived core / handler / hook list shares a slice tail with what it was derived from (two derivations from one parent would write the same array element: a race, and each sibling's element overwritten)", 1)
 	c7AppendsAll(c, "R9.12")
